@@ -263,8 +263,42 @@ func runProduct(r *ev.Run) {
 					}
 					r.Outcome(fmt.Sprintf("rejected/frames=%d", n))
 				}
-				if r.WantSample() && fi%97 == 5 {
-					r.Sample(map[string]any{"first": fm.desc, "second": sm.name, "accepted": fm.accepted, "frames": desc})
+				// the refused connection's entry is still in the table (the running server leaves
+				// it there until the socket goes): an event the teamserver addresses to operator
+				// op1 by name must reach op1's authenticated connection and nobody else
+				if online && !fm.accepted && pn == nil && sm.name == "nothing" {
+					u := w.online[0]
+					// twice: with op1's entry older than the refused one, and - op1 having logged in
+					// after the refused attempt - younger (the table is searched in some order)
+					for _, order := range []string{"operator-first", "refused-first"} {
+						if order == "refused-first" {
+							if c, ok := w.ts.T.Clients.Load("online-0"); ok {
+								w.ts.T.Clients.Delete("online-0")
+								w.ts.T.Clients.Store("online-0", c)
+							}
+						}
+						fu, _ := u.Frames()
+						fx, _ := ws.Frames()
+						func() {
+							defer func() {
+								if p := recover(); p != nil {
+									r.Violate("harness/targeted-request-panics", fmt.Sprint(p), detail)
+								}
+							}()
+							w.ts.T.DispatchEvent(packager.Package{Head: packager.Head{Event: packager.Type.Listener.Type, User: "op1"}, Body: packager.Body{SubEvent: packager.Type.Listener.Add,
+								Info: map[string]any{"Name": "tgt", "Protocol": "Http", "HostBind": "127.0.0.1", "Hosts": "127.0.0.1", "Headers": "", "Uris": "/u1", "HostRotation": "round-robin",
+									"PortBind": "1", "PortConn": "1", "HostHeader": "", "UserAgent": "UA", "Secure": "false", "Proxy Enabled": "true"}}})
+						}()
+						fu2, _ := u.Frames()
+						fx2, _ := ws.Frames()
+						switch {
+						case len(fx2) > len(fx):
+							r.Violate("preauth-frames/event-addressed-to-an-operator-by-name", fmt.Sprintf("after the refused first message %s, %d answer(s) to a request of the authenticated operator op1 were written to the refused connection", fm.desc, len(fx2)-len(fx)), detail)
+						case len(fu2) == len(fu):
+							r.Violate("preauth-state/operator-loses-events-addressed-to-him", fmt.Sprintf("after the refused first message %s, the authenticated operator op1 no longer receives the answers to his own requests (they are addressed to a connection that never authenticated; table order: %s)", fm.desc, order), detail)
+						}
+					}
+					dirty = true
 				}
 				w.ts.T.Clients.Delete(id)
 				if dirty {
